@@ -138,19 +138,31 @@ func isRefLike(t types.Type) bool {
 	return false
 }
 
-// opaqueStruct: struct types from outside the repository are uninterpreted sorts.
+// opaqueStruct: struct types from outside the repository WITHOUT exported fields (sync.Mutex,
+// time.Time, bytes.Buffer, bufio.Reader, ...) are uninterpreted sorts: their content is only reachable
+// through their methods. Library structs with exported fields (http.Request, http.Response, net.TCPAddr,
+// nsq.Message, ...) are ordinary memory: their fields can be read and written directly by the code.
 func (s *Sorts) opaqueStruct(t types.Type) bool {
 	n, ok := types.Unalias(t).(*types.Named)
 	if !ok {
 		return false
 	}
-	if _, ok := n.Underlying().(*types.Struct); !ok {
+	st, ok := n.Underlying().(*types.Struct)
+	if !ok {
 		return false
 	}
 	if n.Obj().Pkg() == nil {
 		return false
 	}
-	return !s.repoPaths(n.Obj().Pkg().Path())
+	if s.repoPaths(n.Obj().Pkg().Path()) {
+		return false
+	}
+	for i := 0; i < st.NumFields(); i++ {
+		if st.Field(i).Exported() {
+			return false
+		}
+	}
+	return true
 }
 
 func (s *Sorts) sortOf(t types.Type) string {
